@@ -15,6 +15,7 @@ import (
 	"strconv"
 	"strings"
 	"time"
+	"unicode/utf8"
 
 	"github.com/la5nta/wl2k-go/transport"
 )
@@ -422,7 +423,7 @@ func (s *Session) writeCompressed(rw io.ReadWriter, p *Proposal) (err error) {
 	writer := bufio.NewWriter(rw)
 
 	var (
-		title    = mime.QEncoding.Encode("utf-8", p.title) // Word-encode the title since this field must be ASCII-only
+		title    = encodeTitle(p.title) // Word-encode the title since this field must be ASCII-only
 		offset   = fmt.Sprintf("%d", p.offset)
 		length   = len(title) + len(offset) + 2
 		checksum int64
@@ -523,6 +524,21 @@ func (s *Session) writeCompressed(rw io.ReadWriter, p *Proposal) (err error) {
 	statusTicker.Stop()
 
 	return err
+}
+
+// encodeTitle word-encodes the proposal title and shortens it (on a rune boundary) until the
+// encoded form fits the 80 bytes allowed by the protocol. Without this, a long non-ASCII subject
+// would overflow the single byte used for the header length.
+func encodeTitle(title string) string {
+	const maxTitleLength = 80
+
+	encoded := mime.QEncoding.Encode("utf-8", title)
+	for len(encoded) > maxTitleLength && len(title) > 0 {
+		_, size := utf8.DecodeLastRuneInString(title)
+		title = title[:len(title)-size]
+		encoded = mime.QEncoding.Encode("utf-8", title)
+	}
+	return encoded
 }
 
 func (s *Session) readCompressed(rw io.ReadWriter, p *Proposal) (err error) {
